@@ -4,7 +4,7 @@
    starts after the mark is C01_sound (Dec uses `strip`, which drops exactly one mark). *)
 From Coq Require Import List NArith String Bool.
 From Model Require Import Base Names Flt Matches Detect.
-From Proofs Require Import NamesFacts DetectFilters DetectSound.
+From Proofs Require Import NamesFacts DetectFilters DetectSound SbFacts.
 Import ListNotations.
 
 Theorem C07_flag_truthful :
@@ -36,3 +36,15 @@ Print Assumptions C07_text_after_mark.
 Theorem C07_marks_prefix_free : marks_prefix_free_b = true.
 Proof. exact marks_prefix_free. Qed.
 Print Assumptions C07_marks_prefix_free.
+
+(* LazyContract discharged for table-modelled single-byte decoders (Proofs/SbFacts.v) *)
+Theorem C07_text_after_mark_single_byte_modelled :
+  forall FO (R : oracles FO) tables,
+    SbModelled FO R tables -> (forall e, Forall (fun c => c <> 65279) (tables e)) ->
+  forall b cfg r m mark, b <> [] -> from_bytes FO R b cfg = Ok r -> In m r ->
+    identify_sig b = Some (m_enc FO m, mark) ->
+    exists t, m_text FO m = Some t /\ sdecode FO R (m_enc FO m) (skipn (List.length mark) b) = Some t.
+Proof.
+  intros FO R tables HM HN b cfg r m mark. apply C07_text_after_mark. exact (sb_lazy_contract FO R tables HM HN).
+Qed.
+Print Assumptions C07_text_after_mark_single_byte_modelled.
